@@ -85,14 +85,37 @@ def check_tables(fx, R):
     R.used(md['ctor'], md['init'])
     loc = fx.rel(md['ctor']['loc'])
     x, y, z = md['angles']
-    # re-initialisation: a path of init() that leaves a derivative table (or a table it is derived from) as an earlier call wrote it
-    dtabs = ('dRxdAngleX_', 'dRydAngleY_', 'dRzdAngleZ_', 'dRdAngleX_', 'dRdAngleY_', 'dRdAngleZ_')
+    # re-initialisation: what the accessors hand out after init() on an object with an arbitrary earlier state must not contain entries an earlier init() wrote
+    # (the accessors are RUN on the state init() leaves - first access - so tables composed on demand are judged by what they return)
+    T = mat.fresh('T', 3, 1)
+    ACC = (('X', 'dRdAngleAroundXAxis', ('Rz_', 'Ry_', 'dRxdAngleX_')), ('Y', 'dRdAngleAroundYAxis', ('Rz_', 'dRydAngleY_', 'Rx_')), ('Z', 'dRdAngleAroundZAxis', ('dRzdAngleZ_', 'Ry_', 'Rx_')))
+
+    def seen(st_, name, args=None, nparams=0):
+        try:
+            ob = rot.observe(fx, st_, name, args=args, nparams=nparams)
+        except sym.Unsupported as u:
+            return str(u), None
+        if ob is None:
+            return 'vanished', None
+        R.used(ob[1])
+        vals = [v for (v, _s) in ob[0]]
+        if len(vals) != 1 or not isinstance(vals[0], sp.MatrixBase):
+            return 'does not return one readable matrix', ob[1]
+        return sp.Matrix(vals[0]), ob[1]
+
     for st_ in md['again']:
-        stale = sorted({s_.name for n_ in dtabs for s_ in sp.Matrix(st_.fields[('this', n_)]).free_symbols if s_.name.startswith('old:')})
+        desc = ' && '.join(('' if c[2] else '!') + '(' + c[0] + ')' for c in st_.cond)
+        stale = []
+        for (ax, acc, prod) in ACC:
+            v, f_ = seen(st_, acc)
+            if isinstance(v, sp.MatrixBase):
+                stale += ['%s() <- %s' % (acc, s_.name) for s_ in v.free_symbols if s_.name.startswith('old:')]
+        v, f_ = seen(st_, 'dRTdAngles', args=[T], nparams=1)
+        if isinstance(v, sp.MatrixBase):
+            stale += ['dRTdAngles() <- %s' % s_.name for s_ in v.free_symbols if s_.name.startswith('old:')]
         if stale:
-            desc = ' && '.join(('' if c[2] else '!') + '(' + c[0] + ')' for c in st_.cond)
-            R.violated('G1', 'SmartRotation3D::init:stale-derivative-tables', 'on the path [%s] init() leaves %s as an earlier init() wrote them: after re-initialising an object the reported derivative matrices are those '
-                       'of the PREVIOUS angles, not derivatives of the reported rotation' % (desc, stale[:4]), fx.rel(md['init']['loc']), 'E-STATE')
+            R.violated('G1', 'SmartRotation3D::init:stale-derivative-tables', 'on the path [%s] of a re-initialisation the first access afterwards still returns entries an EARLIER init() wrote (%s): the reported derivative '
+                       'matrices are those of the PREVIOUS angles, not derivatives of the reported rotation' % (desc, sorted(set(stale))[:4]), fx.rel(md['init']['loc']), 'E-STATE')
             break
     generic = [s_ for s_ in md['fresh'] if not any(c[2] and isinstance(c[1], (sp.Eq, sp.And)) for c in s_.cond)]
     if len(md['fresh']) != 1 and len(generic) != 1:
@@ -114,30 +137,39 @@ def check_tables(fx, R):
                            bad, dtab, tab, ax.lower(), i, j, got[i, j], want[i, j],
                            ' - these entries are never written by init() and keep the Identity the constructor seeds the table with (the derivative of a constant entry is 0)' if seeded else ''),
                        loc, 'E-ALG')
-    Rfull = F('R_')
-    for (dtab, ang, ax) in (('dRdAngleX_', x, 'X'), ('dRdAngleY_', y, 'Y'), ('dRdAngleZ_', z, 'Z')):
+    Rv, fR = seen(st, 'R')
+    if not isinstance(Rv, sp.MatrixBase):
+        R.undecided('G1', 'SmartRotation3D::R', 'R() on the state init() leaves: %s' % Rv)
+        return
+    Rfull = Rv
+    outs = {}
+    for (ax, acc, prod), ang in zip(ACC, (x, y, z)):
+        v, f_ = seen(st, acc)
+        if not isinstance(v, sp.MatrixBase):
+            R.undecided('G1', 'SmartRotation3D::dRdAngleAround%sAxis' % ax, 'accessor on the state init() leaves: %s' % v)
+            continue
+        outs[ax] = v
         want = Rfull.diff(ang)
-        res = sp.simplify(F(dtab) - want)
+        res = sp.simplify(v - want)
         R.check(res == sp.zeros(3, 3), 'G1', 'SmartRotation3D::dRdAngleAround%sAxis:value' % ax,
                 'dR/d%s as reported differs from the derivative of the reported R by %s' % (ax.lower(), res.tolist()), 'equals d R / d angle', loc, 'E-ALG')
-    # product structure with the library's own tables as symbols
+        # product structure over the library's own elementary tables, judged on what the accessor RETURNS on first access after init()
+        dtab = 'dRdAngle%s_' % ax
+        wantp = F(prod[0]) * F(prod[1]) * F(prod[2])
+        resp = sp.simplify(v - wantp)
+        R.check(resp == sp.zeros(3, 3), 'G1', 'SmartRotation3D:%s:product' % dtab, '%s() returns something else than %s*%s*%s of the tables init() just wrote (residual %s) on the first access after init()' % (
+            (acc,) + prod + (resp.tolist(),)), '%s() = %s %s %s' % ((acc,) + prod), fx.rel(f_['loc']), 'E-ALG')
+        R.holds('G1', 'SmartRotation3D::dRdAngleAround%sAxis:accessor' % ax, 'run on the state init() leaves', fx.rel(f_['loc']), 'E-SIB')
     rd = rot.reader(fx)
-    g = md['ctor_state'].copy()
-    for n in rot.MATS[:3] + rot.MATS[4:7]:
-        g.fields[('this', n)] = mat.fresh(n, 3, 3)
-    # run only the product statements: rerun init on symbolic tables and compare the products that do not depend on trig entries
-    for (dtab, prod) in (('dRdAngleX_', ('Rz_', 'Ry_', 'dRxdAngleX_')), ('dRdAngleY_', ('Rz_', 'dRydAngleY_', 'Rx_')), ('dRdAngleZ_', ('dRzdAngleZ_', 'Ry_', 'Rx_'))):
-        want = F(prod[0]) * F(prod[1]) * F(prod[2])
-        res = sp.simplify(F(dtab) - want)
-        R.check(res == sp.zeros(3, 3), 'G1', 'SmartRotation3D:%s:product' % dtab, '%s is not %s*%s*%s' % ((dtab,) + prod), '%s = %s %s %s' % ((dtab,) + prod), loc, 'E-ALG')
-    # accessors
-    for ax, tabn in (('X', 'dRdAngleX_'), ('Y', 'dRdAngleY_'), ('Z', 'dRdAngleZ_')):
-        f = fx.one(rot.Q + 'dRdAngleAround%sAxis' % ax)
-        if f is None:
-            R.undecided('G1', 'SmartRotation3D::dRdAngleAround%sAxis' % ax, 'accessor vanished')
-            continue
-        R.used(f)
-        R.form(stmts_sx(f) == [('return', 'this.' + tabn)], 'G1', 'SmartRotation3D::dRdAngleAround%sAxis:accessor' % ax, 'returns %s' % (stmts_sx(f),), 'returns ' + tabn, fx.rel(f['loc']), 'E-SIB')
+    # G2 on the real object: dRTdAngles(T) right after init() has columns (what dRdAngleAround?Axis() returns) * T
+    v, f_ = seen(st, 'dRTdAngles', args=[T], nparams=1)
+    if isinstance(v, sp.MatrixBase) and v.shape == (3, 3) and len(outs) == 3:
+        for k, ax in enumerate('XYZ'):
+            res = sp.simplify(sp.Matrix(v[:, k]) - outs[ax] * T)
+            R.check(res == sp.zeros(3, 1), 'G2', 'SmartRotation3D::dRTdAngles:first-access:col%d' % k, 'right after init() column %d of dRTdAngles(T) is not dRdAngleAround%sAxis() * T (residual %s): it reads a composed table '
+                    'without the refresh the accessor performs' % (k, ax, res.T.tolist()), 'col(%d) = dRdAngleAround%sAxis() * T on first access' % (k, ax), fx.rel(f_['loc']), 'E-STATE')
+    elif len(outs) == 3:
+        R.undecided('G2', 'SmartRotation3D::dRTdAngles:first-access', 'dRTdAngles(T) on the state init() leaves: %s' % (v if not isinstance(v, sp.MatrixBase) else 'shape %s' % (v.shape,)))
     # ---- G2 -------------------------------------------------------------------------------
     f = fx.one(rot.Q + 'dRTdAngles')
     if f is None:
